@@ -351,27 +351,42 @@ class EvaluateComplexDouble : public EvaluateDouble<ComplexDouble>
     RCP<const Basic> floor(const Basic &x) const override
     {
         SYMENGINE_ASSERT(is_a<ComplexDouble>(x))
+        const std::complex<double> &c = down_cast<const ComplexDouble &>(x).i;
+        if (not std::isfinite(c.real()) or not std::isfinite(c.imag())) {
+            // no integer to convert to: mpz_set_d raises SIGFPE for inf/nan
+            return x.rcp_from_this();
+        }
         integer_class re, im;
-        mp_set_d(re, std::floor(down_cast<const ComplexDouble &>(x).i.real()));
-        mp_set_d(im, std::floor(down_cast<const ComplexDouble &>(x).i.imag()));
+        mp_set_d(re, std::floor(c.real()));
+        mp_set_d(im, std::floor(c.imag()));
         return Complex::from_two_nums(*integer(std::move(re)),
                                       *integer(std::move(im)));
     }
     RCP<const Basic> ceiling(const Basic &x) const override
     {
         SYMENGINE_ASSERT(is_a<ComplexDouble>(x))
+        const std::complex<double> &c = down_cast<const ComplexDouble &>(x).i;
+        if (not std::isfinite(c.real()) or not std::isfinite(c.imag())) {
+            // no integer to convert to: mpz_set_d raises SIGFPE for inf/nan
+            return x.rcp_from_this();
+        }
         integer_class re, im;
-        mp_set_d(re, std::ceil(down_cast<const ComplexDouble &>(x).i.real()));
-        mp_set_d(im, std::ceil(down_cast<const ComplexDouble &>(x).i.imag()));
+        mp_set_d(re, std::ceil(c.real()));
+        mp_set_d(im, std::ceil(c.imag()));
         return Complex::from_two_nums(*integer(std::move(re)),
                                       *integer(std::move(im)));
     }
     RCP<const Basic> truncate(const Basic &x) const override
     {
         SYMENGINE_ASSERT(is_a<ComplexDouble>(x))
+        const std::complex<double> &c = down_cast<const ComplexDouble &>(x).i;
+        if (not std::isfinite(c.real()) or not std::isfinite(c.imag())) {
+            // no integer to convert to: mpz_set_d raises SIGFPE for inf/nan
+            return x.rcp_from_this();
+        }
         integer_class re, im;
-        mp_set_d(re, std::trunc(down_cast<const ComplexDouble &>(x).i.real()));
-        mp_set_d(im, std::trunc(down_cast<const ComplexDouble &>(x).i.imag()));
+        mp_set_d(re, std::trunc(c.real()));
+        mp_set_d(im, std::trunc(c.imag()));
         return Complex::from_two_nums(*integer(std::move(re)),
                                       *integer(std::move(im)));
     }
